@@ -194,11 +194,11 @@ def main_c12(tier, seed, rng, quick, t0, replay_path):
         mc = dict(distinct=1, generated=1, completed=True, cmd='')
         faults = [[]]
     else:
-        charts = yaml_charts(rng, 4, 12 if quick else 60)
+        charts = yaml_charts(rng, 4, 12 if quick else (8 if os.environ.get('C12_FAULTS') == '3' else 40))
         d = tlc.workdir('C12_yaml')
         with open(os.path.join(d, 'ChartsData.tla'), 'w') as f:
             f.write(gc.tla_charts_module('ChartsData', charts))
-        tlc.write_mc(d, 'YamlMC', dict(M=M, MaxFaults=2 if quick else 3, EmitEdges=True), view='View',
+        tlc.write_mc(d, 'YamlMC', dict(M=M, MaxFaults=2 if (quick or os.environ.get('C12_FAULTS') != '3') else 3, EmitEdges=True), view='View',
                      action_constraints=['Emit'],
                      invariants=['AcceptsIffSound', 'AcceptedIsSound', 'RoundTrips'])
         mc = tlc.run(d, timeout=3000, heap='12g')
